@@ -22,6 +22,10 @@ FIXED = [
  ("C11", "9469b98", "Struct._update left earlier fields modified when a later field raised", "corpus/C11/partial_struct_update.json"),
  ("C02", "b262522", "C accessors through an array of dynamic items nested in a parent dropped the array's own offset (offset= instead of offset+=)", "corpus/C02/nested_array_of_dynamic_items.json"),
  ("C14", "d9b1809", "a class without fields that another class depends on was listed (and its API emitted) twice; cffi rejected the build", "corpus/C14/fieldless_dependency_twice.json"),
+ ("C19", "3312ce6", "to_dict never omitted renamed fields equal to their default (defaults keyed by xo name, looked up by Python name)", "corpus/C19/renamed_default_not_elided.json"),
+ ("C19", "b53ebd3", "to_dict omitted a zero-length dynamic array field (no default): from_dict(to_dict()) raised", "corpus/C19/empty_dynamic_array_elided.json"),
+ ("C19", "55ba689", "to_dict compared defaults in xobject form: String fields equal to their declared default never omitted; N-D static array fields raised ValueError (broadcast)", "corpus/C19/nd_static_array_default.json"),
+ ("C19", "e2169d6", "from_dict(to_dict()) of an object with a nested hybrid object whose class renames fields silently lost those fields' values (or raised)", "corpus/C19/nested_renamed_fields_lost.json"),
 ]
 OPEN = []
 out = {"comment": "Read-only at run time. 'fixed' entries suppress nothing: the example is in corpus/ and is re-run by the check, so a regression is reported as a violation. 'open' entries are attributed by feature + counterfactual (DESIGN.md section 7).",
